@@ -349,14 +349,30 @@ func ruleJoinInvertGuards(c *eng.Ctx) {
 				return false
 			}
 			call, ok := ast.Unparen(as.Rhs[0]).(*ast.CallExpr)
-			if !ok || !strings.HasSuffix(eng.CalleeName(info, call), "mapper.RunFilter") || len(call.Args) != 2 {
-				return false
-			}
-			inner, ok := ast.Unparen(call.Args[0]).(*ast.CallExpr)
 			if !ok {
 				return false
 			}
-			if se, ok := inner.Fun.(*ast.SelectorExpr); !ok || se.Sel.Name != "NewDoc" {
+			direct := func(ci *types.Info, cc *ast.CallExpr) bool {
+				if !strings.HasSuffix(eng.CalleeName(ci, cc), "mapper.RunFilter") || len(cc.Args) != 2 {
+					return false
+				}
+				inner, ok := ast.Unparen(cc.Args[0]).(*ast.CallExpr)
+				if !ok {
+					return false
+				}
+				se, ok := inner.Fun.(*ast.SelectorExpr)
+				return ok && se.Sel.Name == "NewDoc"
+			}
+			isP := direct(info, call)
+			if !isP {
+				// a helper of the package that evaluates the filter on an empty document
+				if h := c.P.FuncOfObj(eng.Callee(info, call)); h != nil && h.Pkg == fi.Pkg && h != fi && h.Decl.Body != nil {
+					if eng.FindCall(h.Decl.Body, false, func(cc *ast.CallExpr) bool { return direct(h.Pkg.TypesInfo, cc) }) != nil {
+						isP = true
+					}
+				}
+			}
+			if !isP {
 				return false
 			}
 			probeVar = eng.ObjOf(info, as.Lhs[0])
